@@ -7,7 +7,8 @@ real formatter.cmd_paths; for a share of the huawei cases also annet.gen._old_ne
 
 Independent oracle: bounded/ref_acl.py decides coverage (ACL language description), bounded/devsim.py executes the patch.
 Rulebooks are such that the logic emits only the row or its negation (`~ %global`, or `*` rules whose rows consist of exactly
-the rule's words).
+the rule's words), plus a `common.permanent` block rule (custom text and the shipped cisco.rul physical-port rule) that keeps
+the block and clears its lines -- there the "removed" half of clause (d) is off.
 
   (a) every path of cmd_paths(patch) is covered by the united ACL level by level, directly or as the reverse form; the
       block-exit word is excepted                                             key  patch-command-outside-acl
@@ -440,7 +441,7 @@ def check(case):
 
 # ---------------------------------------------------------------------------------------------------------------------
 def n_cases(tier):
-    return 30000 if tier == "quick" else 450000
+    return 24000 if tier == "quick" else 240000
 
 
 def cases(tier, seed, part, nparts):
@@ -480,9 +481,14 @@ def run(tier="quick", seed=0, part=0, nparts=1):
              "delete commands such as `undo interface x` included); 1-2 generators whose ACL texts are derived from the rows of "
              "old and new (literal / `*` / `~` / first-word / bare `*` / bare `~` patterns, nesting, `~ %%global` below the top level, "
              "%%cant_delete[=0/1] or the interface default, rows left out with prob. 0.1-0.4 so that uncovered rows stand next to "
-             "covered ones) united through the real RunGeneratorResult.acl_text + compile_acl_text; vendors huawei / cisco / arista; "
-             "two rulebooks (`~ %%global`; keyed `interface *`, `description ~`, `mtu *`, `a *`, `b *` + `~ %%global`) passed as rb=; one "
-             "third of the conformant huawei cases also through annet.gen._old_new_per_device (stub device/context, real generator "
+             "covered ones) united through the real RunGeneratorResult.acl_text + compile_acl_text; vendors huawei / cisco / arista / juniper "
+             "(flat commands split back by the simulator, clause (a) on the rows of the patch tree); three rulebooks (`~ %%global`; "
+             "keyed `interface *`, `description ~`, `mtu *`, `a *`, `b *` + `~ %%global`; `interface * %%logic=common.permanent`) passed "
+             "as rb=; every 8th case is a port case: a deletable interface block (`interface * %%cant_delete=0` of one generator) "
+             "with lines a second generator declares undeletable, block mostly absent from new, under the permanent rulebook or "
+             "the SHIPPED cisco.rul (`interface GigabitEthernet0/1`; clause (d) off there); rows whose first word merely begins with "
+             "`interface` (interfaces, interface-range x, interfaceX) carry the built-in default too; half "
+             "of the conformant huawei cases also through annet.gen._old_new_per_device (stub device/context, real generator "
              "classes). No %%prio, no %%global on patterns other than `~`. Cases whose old / new the reference matcher calls ambiguous are skipped "
              "(counted in `ambiguous`), single patch commands it calls ambiguous are left out of clause (a) (`ambiguous_commands`). Non-trivial = the patch has commands and old has an uncovered row or a row covered only by undeletable "
              "rules; distinct by the json of the case" % (len(HAND), ROWS),
